@@ -160,7 +160,7 @@ def translate_time(src):
            "",
            "Definition string_to_secs (v : yv) : result fl :=",
            "  match py_str v with",
-           "  | None => Err EUnsup",
+           "  | None => Err EValue                             (* str(list/dict) starts with [ or {: int()/float() fail *)",
            "  | Some s =>",
            "      let s' := if existsb is_alpha s then s else s ++ [115] in",
            "      bindR (string_to_ms (YStr s')) (fun ms => Ok (fdiv_pos (fl_of_Z ms) 1000))",
@@ -230,3 +230,1131 @@ def translate(repo, gendir):
     if old != text:
         with open(path, "w") as f:
             f.write(text)
+
+
+# ==================================================================================================
+# values: tagged JSON  <->  Python  <->  Gallina
+def tagv(v):
+    if v is None:
+        return ["n"]
+    if isinstance(v, bool):
+        return ["b", v]
+    if isinstance(v, int):
+        return ["i", str(v)]
+    if isinstance(v, float):
+        return ["f", repr(v)]
+    if isinstance(v, str):
+        return ["s", v]
+    if isinstance(v, list):
+        return ["l", [tagv(x) for x in v]]
+    if isinstance(v, dict):
+        return ["d", [[tagv(k), tagv(x)] for k, x in v.items()]]
+    if isinstance(v, (set, frozenset)):
+        return ["set", sorted((tagv(x) for x in v), key=lambda t: json.dumps(t))]
+    if isinstance(v, tuple):
+        return ["other", "tuple"]
+    cn = type(v).__name__
+    if cn == "RuntimeToken":
+        return ["tok", v.token]
+    coll = getattr(type(v), "collection", None)
+    if coll and hasattr(v, "name"):
+        return ["dev", coll, v.name]
+    return ["other", cn]
+
+
+def untag(t):
+    k = t[0]
+    if k == "n":
+        return None
+    if k == "b":
+        return bool(t[1])
+    if k == "i":
+        return int(t[1])
+    if k == "f":
+        return float(t[1])
+    if k == "s":
+        return t[1]
+    if k == "l":
+        return [untag(x) for x in t[1]]
+    if k == "d":
+        return {untag(a): untag(b) for a, b in t[1]}
+    raise ValueError(t)
+
+
+def cstr(s):
+    return zlist([ord(c) for c in s]) if s else "(@nil Z)"
+
+
+def ascii_ok(s):
+    return all(ord(c) < 128 for c in s)
+
+
+class OutOfDomain(Exception):
+    pass
+
+
+TWO1000 = Fraction(2) ** 1000
+
+
+def cfl(x):
+    if x != x:
+        return "FNaN"
+    if x in (float("inf"), float("-inf")):
+        return "(FInf %s)" % blit(x < 0)
+    n, d = x.as_integer_ratio()
+    if n != 0 and not (1 / TWO1000 <= abs(Fraction(n, d)) < TWO1000):
+        raise OutOfDomain("float magnitude")
+    return "(FNum (Qmake %s %d))" % (zlit(n), d)
+
+
+def cyv(t):
+    k = t[0]
+    if k == "n":
+        return "YNone"
+    if k == "b":
+        return "(YBool %s)" % blit(t[1])
+    if k == "i":
+        z = int(t[1])
+        if abs(z) >= 2 ** 1000:
+            raise OutOfDomain("int magnitude")
+        return "(YInt %s)" % zlit(z)
+    if k == "f":
+        x = float(t[1])
+        return "(YFloat %s %s)" % (cfl(x), cstr(repr(x)))
+    if k == "s":
+        if not ascii_ok(t[1]):
+            raise OutOfDomain("non-ascii")
+        return "(YStr %s)" % cstr(t[1])
+    if k == "l":
+        return "(YList %s)" % coqlist(cyv(x) for x in t[1])
+    if k == "d":
+        return "(YDict %s)" % coqlist("(%s,%s)" % (cyv(a), cyv(b)) for a, b in t[1])
+    if k == "set":
+        return "(YSet %s)" % coqlist(cyv(x) for x in t[1])
+    if k == "tok":
+        return "(YToken %s)" % cstr(t[1])
+    if k == "dev":
+        return "(YDev (@nil Z) %s)" % cstr(t[2])     # compared by name (a device can be in several collections)
+    raise OutOfDomain("value kind " + k)
+
+
+ERRS = {"ValueError": "EValue", "TypeError": "EType", "OverflowError": "EOverflow", "AttributeError": "EAttr",
+        "AssertionError": "EAssert", "IndexError": "EIndex", "KeyError": "EKey"}
+
+
+def cerr(e):
+    if e.startswith("CFE"):
+        return "(ECfg %s)" % e[3:]
+    if e in ERRS:
+        return ERRS[e]
+    raise OutOfDomain("error class " + e)
+
+
+def err_name(e):
+    from mpf.exceptions.config_file_error import ConfigFileError
+    if isinstance(e, ConfigFileError):
+        return "CFE%d" % e.get_error_no()
+    return type(e).__name__
+
+
+def has_text(t, pred):
+    """does any string inside the tagged value satisfy pred?"""
+    k = t[0]
+    if k == "s":
+        return pred(t[1])
+    if k == "l" or k == "set":
+        return any(has_text(x, pred) for x in t[1])
+    if k == "d":
+        return any(has_text(a, pred) or has_text(b, pred) for a, b in t[1])
+    return False
+
+
+def numeric_text_in_domain(s):
+    """numeric literals the float model covers: |exponent| <= 400, at most 400 digits, magnitude in range"""
+    u = s.strip()
+    try:
+        x = float(u)
+    except ValueError:
+        # may still be "<number><suffix>"; the model parses what the code parses
+        m = re.match(r"^\s*[+-]?[0-9_.]*(?:[eE][+-]?[0-9_]+)?", s)
+        u = m.group(0) if m else ""
+    digits = sum(c.isdigit() for c in s)
+    if digits > 100:
+        return False
+    for m in re.finditer(r"[eE][+-]?([0-9_]+)", s):
+        try:
+            if int(m.group(1).replace("_", "")) > 180:
+                return False
+        except ValueError:
+            pass
+    return True
+
+
+# ==================================================================================================
+# suite 1: time strings (T model)
+SUFFIXES = ["ms", "msec", "s", "sec", "m", "h", "d"]
+UNIT_MS = {"ms": 1, "msec": 1, "s": 1000, "sec": 1000, "m": 60000, "h": 3600000, "d": 86400000}
+
+
+def rcase(rng, s):
+    r = rng.random()
+    if r < 0.5:
+        return s
+    if r < 0.75:
+        return s.upper()
+    return "".join(c.upper() if rng.random() < 0.5 else c for c in s)
+
+
+def rdecimal(rng):
+    r = rng.random()
+    if r < 0.25:
+        return str(rng.choice([0, 1, 2, 5, 10, 59, 60, 100, 200, 999, 1000, 1500, 86400, rng.randrange(0, 100000)]))
+    if r < 0.65:
+        n = rng.randrange(0, 3000000)
+        return "%d.%03d" % (n // 1000, n % 1000)
+    if r < 0.75:
+        return "%d.%d" % (rng.randrange(0, 100), rng.randrange(0, 100))
+    if r < 0.82:
+        return "%d.%s" % (rng.randrange(0, 50), "".join(rng.choice("0123456789") for _ in range(rng.randrange(4, 9))))
+    if r < 0.86:
+        return rng.choice([".5", "5.", "1e3", "1E-3", "2.5e2", "1_000", "1_0.5", "0.29", "1.001", "8.2", "0.0005", "1e-05",
+                           "4.35", "1.005", "2.675", "1e15", "123456789.125", "1e300", "1e-300", "00012"])
+    if r < 0.90:
+        return rng.choice(["inf", "-inf", "nan", "infinity", "+5", "-5", "-1.5", "-0.0005", " 5", "5 ", " 1.5 ", "\t2"])
+    if r < 0.95:
+        return rng.choice(["", ".", "e5", "1e", "1..2", "1_", "_1", "1__0", "1 0", "0x10", "1,5", "--1", "1e5.5", "abc",
+                           "1.5.", "1e+", "٣"])
+    return str(rng.randrange(0, 10 ** rng.randrange(1, 18)))
+
+
+def gen_time(rng, tier, i):
+    r = rng.random()
+    if r < 0.78:
+        num = rdecimal(rng)
+        suf = rcase(rng, rng.choice(SUFFIXES)) if rng.random() < 0.85 else \
+            rng.choice(["", "", " s", "s ", "x", "ss", "ms ", "msecs", "secs", "min", "hr", "µs", "ſ"])
+        v = num + suf
+        if rng.random() < 0.05:
+            v = " " + v
+        return {"v": ["s", v]}
+    if r < 0.84:
+        return {"v": ["i", str(rng.choice([0, 1, -1, 5, 200, 1000, 2 ** 53 + 1, 10 ** 20, -7, rng.randrange(-10 ** 6, 10 ** 6)]))]}
+    if r < 0.92:
+        return {"v": ["f", repr(rng.choice([0.0, -0.0, 1.5, 2.999, -2.5, 1e-5, 0.0001, 1e16, 1e22, 123.456, float("nan"),
+                                            float("inf"), float("-inf"), 0.1, rng.uniform(0, 5000), 5e-324, 1e308]))]}
+    if r < 0.95:
+        return {"v": ["b", rng.random() < 0.5]}
+    if r < 0.97:
+        return {"v": ["n"]}
+    if r < 0.985:
+        return {"v": ["s", rng.choice(["none", "None", "", "s", "ms", "msec", "sec", "d", "M", "true", "1e-05"])]}
+    return {"v": rng.choice([["l", []], ["l", [["i", "1"]]], ["d", []], ["l", [["s", "1s"]]]])}
+
+
+def _outcome(f, *a):
+    try:
+        return {"ok": tagv(f(*a))}
+    except BaseException as e:     # noqa
+        if isinstance(e, (KeyboardInterrupt, SystemExit)):
+            raise
+        from vlib import CaseTimeout
+        if isinstance(e, CaseTimeout):
+            raise
+        return {"err": err_name(e)}
+
+
+def run_time(case):
+    from mpf.core.utility_functions import Util
+    v = untag(case["v"])
+    return {"ms": _outcome(Util.string_to_ms, v), "secs": _outcome(Util.string_to_secs, v)}
+
+
+def cres(o, okf, ty):
+    if "ok" in o:
+        return "(@Ok %s %s)" % (ty, okf(o["ok"]))
+    return "(@Err %s %s)" % (ty, cerr(o["err"]))
+
+
+def coq_time(case, out):
+    t = case["v"]
+    try:
+        if has_text(t, lambda s: not numeric_text_in_domain(s)):
+            return None
+        inp = cyv(t)
+
+        def ms_ok(x):
+            if x[0] != "i":
+                raise OutOfDomain("ms result kind")
+            return zlit(int(x[1]))
+
+        def secs_ok(x):
+            if x[0] != "f":
+                raise OutOfDomain("secs result kind")
+            return cfl(float(x[1]))
+        return "(%s, (%s, %s))" % (inp, cres(out["ms"], ms_ok, "Z"), cres(out["secs"], secs_ok, "fl"))
+    except OutOfDomain:
+        return None
+
+
+TIME_RE = re.compile(r"^\s*([0-9]+(?:\.[0-9]*)?|\.[0-9]+)(ms|msec|s|sec|m|h|d)$", re.I | re.A)
+
+
+def expected_ms(s):
+    """the property's own reading of a time string: value times unit, as an exact rational number of ms
+    (None: not a plain `<decimal><unit>` string)"""
+    m = TIME_RE.match(s)
+    if not m:
+        return None
+    num, unit = m.group(1), m.group(2).lower()
+    if unit in ("ms", "msec") and "." in num:
+        return None          # fractional milliseconds: rejecting is a legitimate answer
+    return Fraction(num) * UNIT_MS[unit]
+
+
+def oracle_time(case, out):
+    fails = []
+    t = case["v"]
+    ms, secs = out["ms"], out["secs"]
+    if "ok" in ms and ms["ok"][0] != "i":
+        fails.append({"sig": "time-ill-typed", "what": "string_to_ms returned a %s" % ms["ok"][0]})
+    if "ok" in secs and secs["ok"][0] != "f":
+        fails.append({"sig": "time-ill-typed", "what": "string_to_secs returned a %s" % secs["ok"][0]})
+    if t[0] != "s":
+        return fails
+    want = expected_ms(t[1])
+    if want is None or want >= 2 ** 49:
+        return fails
+    if "err" in ms:
+        fails.append({"sig": "time-suffix-rejected",
+                      "what": "string_to_ms(%r) raises %s; value times unit = %s ms" % (t[1], ms["err"], want)})
+        return fails
+    got = int(ms["ok"][1])
+    if want.denominator == 1:
+        if got != want:
+            fails.append({"sig": "time-value-off",
+                          "what": "string_to_ms(%r) = %d, value times unit = %d ms" % (t[1], got, want)})
+    elif abs(got - want) > 1:
+        fails.append({"sig": "time-value-off",
+                      "what": "string_to_ms(%r) = %d, value times unit = %s ms" % (t[1], got, float(want))})
+    if any(c.isalpha() for c in t[1]):
+        if "err" in secs:
+            fails.append({"sig": "time-suffix-rejected", "what": "string_to_secs(%r) raises %s" % (t[1], secs["err"])})
+        elif want.denominator == 1 and secs["ok"][0] == "f" and float(secs["ok"][1]) != int(want) / 1000.0:
+            fails.append({"sig": "time-value-off",
+                          "what": "string_to_secs(%r) = %s, value times unit = %s s" % (t[1], secs["ok"][1], int(want) / 1000.0)})
+    return fails
+
+
+def shrink_time(case):
+    t = case["v"]
+    if t[0] == "s":
+        s = t[1]
+        for j in range(len(s)):
+            yield {"v": ["s", s[:j] + s[j + 1:]]}
+        for j, c in enumerate(s):
+            if c.isdigit() and c not in "01":
+                yield {"v": ["s", s[:j] + "1" + s[j + 1:]]}
+            if c == "1":
+                yield {"v": ["s", s[:j] + "0" + s[j + 1:]]}
+
+
+def nontrivial_time(case, out):
+    t = case["v"]
+    return t[0] == "s" and any(c.isalpha() for c in t[1]) and any(c.isdigit() for c in t[1])
+
+
+def describe_time(case):
+    t = case["v"]
+    if t[0] != "s":
+        return "kind=" + t[0]
+    m = re.search(r"([a-zA-Z]+)\s*$", t[1])
+    return "suffix=" + (m.group(1).lower() if m else "-") + (" frac" if "." in t[1] else "")
+
+
+HDR_TIME = ("From Coq Require Import QArith.\nFrom C12 Require Import Base Model.\nOpen Scope Z_scope.\n"
+            "Definition run := time_run.\nDefinition out_eqb := time_out_eqb.\n")
+
+
+# ==================================================================================================
+# the rig: one booted machine per worker; its real ConfigValidator and real spec
+_RIG = {}
+MACHINE = {"switches": ["s1", "s2", "s_left"], "coils": ["c1", "c2"], "ball_devices": ["playfield"],
+           "playfields": ["playfield"], "shot_profiles": ["default"], "combo_switches": ["both_flippers"],
+           "timed_switches": ["flipper_cradle"], "psus": ["default"]}
+MODELLED = set(EXPECTED_VALIDATORS) - {"dict"} | {"dict"}
+UNMODELLED_TYPES = ["template_int", "template_float", "template_ms", "template_secs", "template_str", "template_bool",
+                    "color", "kivycolor", "gain", "int_from_hex", "subconfig(device)", "template_float_or_token",
+                    "color_or_token"]
+
+
+def rig_init():
+    if "rig" in _RIG:
+        return
+    import logging
+    logging.disable(logging.CRITICAL)
+    from rig import Rig
+    cfg = {"switches": {n: {"number": str(i + 1)} for i, n in enumerate(MACHINE["switches"])},
+           "coils": {n: {"number": str(i + 1)} for i, n in enumerate(MACHINE["coils"])}}
+    r = Rig(cfg).start()
+    # the device names handed to the model must be exactly what the booted machine has
+    for name, coll in r.machine.device_manager.collections.items():
+        if sorted(coll.keys()) != sorted(MACHINE.get(name, [])):
+            raise RuntimeError("rig machine collection %s = %r differs from MACHINE" % (name, sorted(coll.keys())))
+    _RIG["rig"] = r
+    _RIG["cv"] = r.machine.config_validator
+    _RIG["spec0"] = spec_fingerprint(r.machine.config_validator.config_spec)
+    import atexit
+    atexit.register(r.stop)
+
+
+def spec_fingerprint(spec):
+    return json.dumps(spec, sort_keys=True, default=repr)
+
+
+_REAL = {}
+
+
+def real_spec():
+    """config_spec.yaml through MPF's own loader (what ConfigValidator is constructed with)"""
+    if "spec" not in _REAL:
+        import mpf
+        from mpf.file_interfaces.yaml_interface import YamlInterface
+        from mpf.core.config_spec_loader import ConfigSpecLoader
+        p = os.path.join(os.path.dirname(mpf.__file__), "config_spec.yaml")
+        spec = ConfigSpecLoader.process_config_spec(YamlInterface.process(open(p).read()), "root")
+        _REAL["spec"] = spec
+        entries = []
+        for sec, body in spec.items():
+            if isinstance(body, dict):
+                for k, v in body.items():
+                    if isinstance(v, list) and len(v) == 3:
+                        entries.append((sec, k, v))
+        _REAL["entries"] = entries
+        _REAL["sections"] = sorted(k for k, v in spec.items() if isinstance(v, dict))
+    return _REAL
+
+
+def enc_entry(key, v):
+    if isinstance(v, str) and v == "ignore":
+        return ["ignore"]
+    if isinstance(v, list) and len(v) == 3 and all(isinstance(x, str) for x in v):
+        return ["item"] + list(v)
+    if isinstance(v, dict):
+        return ["nested"]
+    return ["raw"]
+
+
+def enc_spec(d):
+    return [[k, enc_entry(k, v)] for k, v in d.items()]
+
+
+def dec_spec(enc):
+    d = {}
+    for k, e in enc:
+        if e[0] == "ignore":
+            d[k] = "ignore"
+        elif e[0] == "item":
+            d[k] = list(e[1:])
+        elif e[0] == "nested":
+            d[k] = {"x": ["single", "str", ""]}
+        else:
+            d[k] = "machine, mode"
+    return d
+
+
+# --------------------------------------------------------------------------------------------------
+# generators
+WORDS = ["a", "b", "on", "off", "yes", "no", "true", "false", "t", "f", "enable", "disable", "True", "FALSE", "Yes",
+         "none", "None", "NONE", " none", "input", "output", "basic", "full", "1", "2", "3", "", " ", "x y", "s1", "s2",
+         "c1", "nope", "S1", "(tok)", "()", "(", "(a)b", "(machine.x)", "a,b", "a, b", "a,none,b", "a, none", "a,,b",
+         "a, ,b", ",", "s1,s2", "s1, nope", "1,2,3", "1, x", "ev{x>1}", "a{b,c}, d", "é", "200ms", "1.5s", "2sec",
+         "1m", "1.001s", "200msec", "nan", "inf", "-inf", "NaN", "1e3", "1.5", ".5", "5.", "-3", "+4", " 7 ", "1_0",
+         "0x10", "8", "16", "7", "255", "256", "0", "-1", "1.0", "0.5", "1e400", "1.5.2", "12abc"]
+INTS = [0, 1, -1, 2, 3, 7, 8, 16, 100, 255, 256, 1000, -8, 2 ** 31, 2 ** 53 + 1, 10 ** 20]
+FLOATS = [0.0, -0.0, 1.0, 0.5, 1.5, -2.5, 0.1, 1e-5, 8.0, 255.0, 255.5, 1e20, float("nan"), float("inf"), float("-inf"),
+          2.999, 0.999, 1.0000001]
+
+
+def rscalar(rng):
+    r = rng.random()
+    if r < 0.42:
+        return rng.choice(WORDS)
+    if r < 0.62:
+        return rng.choice(INTS + [rng.randrange(-50, 300)])
+    if r < 0.80:
+        return rng.choice(FLOATS + [round(rng.uniform(-2, 3), 3)])
+    if r < 0.90:
+        return rng.random() < 0.5
+    return None
+
+
+def rvalue(rng, depth=0):
+    r = rng.random()
+    if depth >= 2 or r < 0.72:
+        return rscalar(rng)
+    if r < 0.87:
+        return [rvalue(rng, depth + 1) for _ in range(rng.randrange(0, 4))]
+    d = {}
+    for _ in range(rng.randrange(0, 4)):
+        k = rscalar(rng)
+        if isinstance(k, float) and k != k:
+            k = "nan"
+        d[k] = rvalue(rng, depth + 1)
+    return d
+
+
+SCALAR_VALIDATORS = ["str", "lstr", "int", "int(0,255)", "int(NONE,10)", "int(-5,NONE)", "int(1,8)", "float", "float(0,1)",
+                     "float(0.5,NONE)", "float(NONE,2.5)", "num", "num(0,100)", "num(0.5,1.5)", "bool", "boolean", "ms",
+                     "secs", "enum(a,b,none)", "enum(yes,no)", "enum(1,2,3)", "enum(input,output)", "enum(None,Basic,Full)",
+                     "enum(true,false)", "machine(switches)", "machine(coils)", "machine(lights)", "pow2", "bool_int",
+                     "list", "dict", "int_or_token", "float_or_token", "num_or_token", "bool_or_token", "ms_or_token",
+                     "secs_or_token", "int_or_token(0,10)", "event_posted", "event_handler", "bool()", "ms()"]
+ODD_VALIDATORS = ["nosuch", "nosuch(1)", "str(1)", "enum", "machine", "bool(x)", "int(5)", "int(a,b)", "pow2(1)", "float(0,1",
+                  "int()", "list(x)", "dict(str:int)", "secs(1)"]
+DICT_VALIDATIONS = ["str:int", "int:int", "str:str", "float:str", "str:list", "machine(switches):ms", "int:enum(input,output)",
+                    "str:ms", "str:bool", "lstr:num(0,10)", "list:int", "nocolon", "str:int:x", "str:secs", "int:pow2"]
+
+
+def good_item(rng, validation):
+    """a value that is likely (not certain) to be valid for the validator"""
+    name = validation.split("(")[0]
+    param = validation[len(name) + 1:-1] if "(" in validation else ""
+    if name.endswith("_or_token") and rng.random() < 0.3:
+        return rng.choice(["(tok)", "(machine.a|b)", "()"])
+    base = name[:-9] if name.endswith("_or_token") else name
+    if base in ("int", "num", "float"):
+        lo, hi = 0, 10
+        ps = param.split(",")
+        if len(ps) == 2:
+            try:
+                lo = float(ps[0]) if ps[0] != "NONE" else -100
+                hi = float(ps[1]) if ps[1] != "NONE" else 1000
+            except ValueError:
+                pass
+        pick = rng.choice([lo, hi, lo - 1, hi + 1, (lo + hi) / 2, lo - 0.001, hi + 0.001, lo + 0.25])
+        if base == "int" or (base == "num" and rng.random() < 0.5):
+            if rng.random() < 0.7:
+                pick = int(math.floor(pick))
+        else:
+            pick = float(pick)
+        r = rng.random()
+        if r < 0.5:
+            return pick
+        if r < 0.85:
+            return rng.choice(["%s", " %s", "%s ", "+%s"]) % (pick,) if pick >= 0 or rng.random() < 0.9 else str(pick)
+        return rng.choice([float("nan"), "nan", float("inf"), "-inf", True, "1e1", "1_0"])
+    if base in ("bool", "boolean", "bool_int"):
+        return rng.choice([True, False, "yes", "No", "on", "OFF", "t", "F", "enable", "Disable", "true", "False", 1, 0, "1"])
+    if base == "ms":
+        return rng.choice([200, "200ms", "1.5s", "1.001s", "2 s", "200msec", "1m", "0.5h", 1.5, "50", "1d", "1e2s", "10MS"])
+    if base == "secs":
+        return rng.choice([2, "200ms", "1.5s", "1.001s", 0.25, "2", "1.5", "3m", 1e-5, "1sec", "2.5"])
+    if base == "enum":
+        vals = param.split(",")
+        return rng.choice(vals + [v.upper() for v in vals] + [True, False, None, 1, 2, "zzz", 1.0])
+    if base == "machine":
+        return rng.choice(MACHINE.get(param, []) + ["s1", "c1", "nope", "", None, 5])
+    if base == "pow2":
+        return rng.choice([1, 2, 8, 16, 1024, "8", "16", 8.0, 7, 0, -8, "7", True, 2 ** 70, "x", 2.5])
+    if base == "list":
+        return rng.choice(["a,b", "a, b ,c", ["a", "b"], "a", 5, None, "", "a,none"])
+    if base == "dict":
+        return rng.choice([{}, {"a": 1}, {"a": {"b": 2}}, None, "", 0, "x", [], [1]])
+    return rng.choice(["abc", "Abc Def", 5, 1.5, True, None, "none", "", ["a"], {"a": 1}])
+
+
+def gen_spec_entry(rng):
+    r = rng.random()
+    if r < 0.55:
+        ty = "single"
+    elif r < 0.72:
+        ty = "list"
+    elif r < 0.78:
+        ty = "set"
+    elif r < 0.90:
+        ty = "dict"
+    elif r < 0.97:
+        ty = "event_handler"
+    else:
+        ty = rng.choice(["singel", "List", ""])
+    if ty == "dict":
+        va = rng.choice(DICT_VALIDATIONS)
+    elif ty == "event_handler":
+        va = "event_handler:ms" if rng.random() < 0.92 else "str:ms"
+    else:
+        r = rng.random()
+        va = rng.choice(SCALAR_VALIDATORS) if r < 0.88 else rng.choice(ODD_VALIDATORS) if r < 0.94 else \
+            rng.choice(UNMODELLED_TYPES)
+    r = rng.random()
+    if r < 0.30:
+        de = ""
+    elif r < 0.50:
+        de = rng.choice(["None", "none", "NONE"])
+    elif r < 0.85 and ty in ("single", "list", "set"):
+        g = good_item(rng, va)
+        de = g if isinstance(g, str) else "" if g is None or isinstance(g, (list, dict)) else str(g)
+    else:
+        de = rng.choice(["0", "1", "a", "false", "basic", "s1", "1s", "x,y", "-1", "%"])
+    return [ty, va, de]
+
+
+def item_for(rng, ty, va):
+    if ty in ("dict", "event_handler"):
+        r = rng.random()
+        if ty == "event_handler" and r < 0.45:
+            return rng.choice(["ev1", "ev1, ev2", "ev1,ev1", "None", "none", ["ev1", "ev2"], ["ev1", ["x"]], "", None, 5,
+                               "a,none", ["a", None, 1, 1.0, True]])
+        if r < 0.75:
+            parts = va.split(":")
+            kv, vv = parts[0], parts[1] if len(parts) > 1 else "str"
+            d = {}
+            for _ in range(rng.randrange(0, 4)):
+                k = good_item(rng, kv)
+                if isinstance(k, (list, dict)) or (isinstance(k, float) and k != k):
+                    k = "k"
+                d[k] = good_item(rng, vv) if rng.random() < 0.85 else rvalue(rng, 1)
+            return d
+        return rng.choice([None, "None", "none", "", "abc", 5, [], ["a"], {1: 2, True: 3, 1.0: 4, "1": 5}, {None: 1}])
+    if ty in ("list", "set"):
+        r = rng.random()
+        if r < 0.35:
+            return [good_item(rng, va) if rng.random() < 0.9 else rvalue(rng, 1) for _ in range(rng.randrange(0, 4))]
+        if r < 0.70:
+            xs = [good_item(rng, va) for _ in range(rng.randrange(1, 4))]
+            xs = [str(x) for x in xs if not isinstance(x, (list, dict))]
+            return rng.choice([",", ", ", " ,"]).join(xs)
+        if r < 0.85:
+            return good_item(rng, va)
+        return rvalue(rng)
+    return good_item(rng, va) if rng.random() < 0.8 else rvalue(rng)
+
+
+def gen_item(rng, tier, i):
+    if rng.random() < 0.30:
+        sec, key, ent = rng.choice(real_spec()["entries"])
+        spec = list(ent)
+        src = "real:%s:%s" % (sec, key)
+    else:
+        spec = gen_spec_entry(rng)
+        src = "synthetic"
+    case = {"spec": spec, "src": src}
+    if rng.random() < 0.88:
+        case["item"] = tagv(item_for(rng, spec[0], spec[1]))
+    return case
+
+
+def run_item(case):
+    rig_init()
+    cv = _RIG["cv"]
+    from mpf.core.config_validator import ValidationPath
+    vfi = ValidationPath(ValidationPath(None, "sec"), "key")
+    args = [list(case["spec"]), vfi]
+    if "item" in case:
+        args.append(untag(case["item"]))
+    out = _outcome(cv.validate_config_item, *args)
+    out["spec_changed"] = spec_fingerprint(cv.config_spec) != _RIG["spec0"]
+    return out
+
+
+def cmachine():
+    return coqlist("(%s, %s)" % (cstr(k), coqlist(cstr(n) for n in v)) for k, v in sorted(MACHINE.items()))
+
+
+def split_validator(va):
+    if "(" in va and va[-1:] == ")":
+        n, p = va.split("(", 1)
+        return n, p[:-1]
+    return va, None
+
+
+def validator_modelled(va):
+    n, p = split_validator(va)
+    if n in UNMODELLED_NAMES:
+        return False
+    if n == "dict" and p:
+        return False
+    return True
+
+
+UNMODELLED_NAMES = {"template_float_or_token", "template_float", "template_int", "template_bool", "template_secs",
+                    "template_ms", "template_str", "int_from_hex", "kivycolor", "color", "color_or_token", "gain",
+                    "subconfig"}
+
+
+def entry_modelled(ty, va):
+    if not ascii_ok(ty + va):
+        return False
+    if ty in ("dict", "event_handler"):
+        return all(validator_modelled(x) for x in va.split(":")[:2])
+    return validator_modelled(va)
+
+
+def item_in_domain(ty, va, t):
+    """inputs the hand model covers (everything else is oracle-only and counted)"""
+    if has_text(t, lambda s: not numeric_text_in_domain(s)):
+        return False
+    if ty == "list" and va not in ("event_posted", "event_handler") and has_text(t, lambda s: "{" in s):
+        return False
+    if ty == "event_handler" and has_text(t, lambda s: "{" in s):
+        return False
+    if ty == "set":
+        # Python set semantics (hash order, 1 == 1.0 == True) are modelled for strings only
+        if t[0] == "l" and not all(x[0] in ("s", "n") for x in t[1]):
+            return False
+        if t[0] not in ("l", "s", "n"):
+            return False
+    if has_container_str(ty, va, t):
+        return False
+    return True
+
+
+def has_container_str(ty, va, t):
+    """str(list/dict) is not modelled: lstr / enum / secs applied to a container"""
+    names = [split_validator(x)[0] for x in (va.split(":")[:2] if ty in ("dict", "event_handler") else [va])]
+    if not any(n in ("lstr", "secs", "secs_or_token") for n in names):
+        return False
+
+    def deep(x, lvl):
+        if x[0] in ("l", "d"):
+            if lvl >= 1:
+                return True
+            if x[0] == "l":
+                return any(deep(y, lvl + 1) for y in x[1])
+            return any(deep(a, lvl + 1) or deep(b, lvl + 1) for a, b in x[1])
+        return False
+    if ty == "single":
+        return t[0] in ("l", "d")
+    return deep(t, 0)
+
+
+def coq_item(case, out):
+    ty, va, de = case["spec"]
+    try:
+        if not entry_modelled(ty, va) or not ascii_ok(de) or not numeric_text_in_domain(de):
+            return None
+        if "item" in case:
+            if not item_in_domain(ty, va, case["item"]):
+                return None
+            it = "(Some %s)" % cyv(case["item"])
+        else:
+            it = "(@None yv)"
+            if "{" in de:
+                return None
+        o = out
+        if ty == "set" and "err" in out and out["err"] != "CFE9":
+            o = {"err": "CFE0"}       # a set has no iteration order: which element fails first is not modelled
+        return "((M, (%s, %s, %s), %s), %s)" % (cstr(ty), cstr(va), cstr(de), it, cres(o, cyv, "yv"))
+    except OutOfDomain:
+        return None
+
+
+# --------------------------------------------------------------------------------------------------
+# the property's own notion of "value of the declared type", on the implementation's output
+def within_py(param, x):
+    """x: Fraction | 'nan' | 'inf' | '-inf'"""
+    if not param:
+        return True
+    ps = param.split(",")
+    if len(ps) < 2:
+        return False
+    for j, p in enumerate(ps[:2]):
+        if p == "NONE":
+            continue
+        b = float(p)
+        if x == "nan":
+            return False
+        if x in ("inf", "-inf"):
+            xv = float(x)
+            ok = (b <= xv) if j == 0 else (xv <= b)
+        else:
+            bf = Fraction(b) if b == b and abs(b) != float("inf") else None
+            if bf is None:
+                ok = (b <= float(x)) if j == 0 else (float(x) <= b)
+            else:
+                ok = (bf <= x) if j == 0 else (x <= bf)
+        if not ok:
+            return False
+    return True
+
+
+def num_of(t):
+    if t[0] == "i":
+        return Fraction(int(t[1]))
+    if t[0] == "b":
+        return Fraction(int(t[1]))
+    x = float(t[1])
+    if x != x:
+        return "nan"
+    if x in (float("inf"), float("-inf")):
+        return "inf" if x > 0 else "-inf"
+    return Fraction(x)
+
+
+def py_has_type(va, t, stats=None):
+    """None = not checkable (unmodelled validator); True/False otherwise"""
+    n, p = split_validator(va)
+    if n.endswith("_or_token"):
+        if t[0] == "tok":
+            return True
+        n = n[:-9]
+    if n in ("str", "event_posted", "event_handler"):
+        return t[0] in ("n", "s")
+    if n == "lstr":
+        return t[0] == "n" or (t[0] == "s" and t[1] == t[1].lower())
+    if n == "int":
+        return t[0] == "n" or (t[0] == "i" and within_py(p, num_of(t)))
+    if n == "float":
+        return t[0] == "n" or (t[0] == "f" and within_py(p, num_of(t)))
+    if n == "num":
+        return t[0] == "n" or (t[0] in ("i", "f", "b") and within_py(p, num_of(t)))
+    if n in ("bool", "boolean"):
+        return t[0] in ("n", "b")
+    if n == "ms":
+        return t[0] in ("n", "i")
+    if n == "secs":
+        return t[0] in ("n", "f")
+    if n == "enum":
+        return t[0] == "n" or (t[0] == "s" and p is not None and t[1] in p.lower().split(","))
+    if n == "machine":
+        return t[0] == "n" or (t[0] == "dev" and t[2] in MACHINE.get(p, []))
+    if n == "pow2":
+        return t[0] == "n" or (t[0] == "i" and int(t[1]) > 0 and int(t[1]) & (int(t[1]) - 1) == 0)
+    if n == "bool_int":
+        return t[0] == "i" and t[1] in ("0", "1")
+    if n == "list":
+        return t[0] == "l"
+    if n == "dict":
+        return t[0] == "d"
+    if n in ("template_int", "template_float", "template_ms", "template_secs", "template_str", "template_bool",
+             "template_float_or_token"):
+        return t[0] in ("n", "other", "tok")
+    if n == "subconfig":
+        return t[0] == "d"
+    return None
+
+
+def py_has_item_type(ty, va, t):
+    if ty == "single":
+        return py_has_type(va, t)
+    if ty in ("list", "set"):
+        if t[0] != ("l" if ty == "list" else "set"):
+            return False
+        rs = [py_has_type(va, x) for x in t[1]]
+        return False if False in rs else None if None in rs else True
+    if ty in ("dict", "event_handler"):
+        if t[0] != "d":
+            return False
+        vs = va.split(":")
+        rs = []
+        for k, v in t[1]:
+            rs.append(py_has_type(vs[0], k))
+            rs.append(py_has_type(vs[1], v))
+        return False if False in rs else None if None in rs else True
+    return None
+
+
+def oracle_item(case, out):
+    fails = []
+    if out.get("spec_changed"):
+        fails.append({"sig": "spec-modified", "what": "config_spec differs after validate_config_item(%r)" % case["spec"]})
+    if "ok" in out:
+        ty, va, de = case["spec"]
+        if py_has_item_type(ty, va, out["ok"]) is False:
+            fails.append({"sig": "ill-typed:" + split_validator(va.split(":")[0] if ty in ("dict", "event_handler") else va)[0]
+                          if False else "ill-typed",
+                          "what": "validate_config_item(%r, item=%r) returned %r, which is not a value of the declared type" %
+                                  (case["spec"], case.get("item", "<absent>"), out["ok"])})
+    return fails
+
+
+def shrink_value(t):
+    k = t[0]
+    if k in ("l",):
+        for j in range(len(t[1])):
+            yield ["l", t[1][:j] + t[1][j + 1:]]
+        for j, x in enumerate(t[1]):
+            for y in shrink_value(x):
+                yield ["l", t[1][:j] + [y] + t[1][j + 1:]]
+        if len(t[1]) == 1:
+            yield t[1][0]
+    elif k == "d":
+        for j in range(len(t[1])):
+            yield ["d", t[1][:j] + t[1][j + 1:]]
+        for j, (a, b) in enumerate(t[1]):
+            for y in shrink_value(b):
+                yield ["d", t[1][:j] + [[a, y]] + t[1][j + 1:]]
+    elif k == "s" and len(t[1]) > 1:
+        for j in range(len(t[1])):
+            yield ["s", t[1][:j] + t[1][j + 1:]]
+
+
+def shrink_item(case):
+    if "item" in case:
+        for y in shrink_value(case["item"]):
+            yield dict(case, item=y)
+    ty, va, de = case["spec"]
+    if de:
+        yield dict(case, spec=[ty, va, ""])
+
+
+def nontrivial_item(case, out):
+    return "item" in case and case["item"][0] != "n"
+
+
+def describe_item(case):
+    ty, va, _ = case["spec"]
+    return "%s|%s" % (ty, split_validator(va)[0] if ty not in ("dict", "event_handler") else "k:v")
+
+
+HDR_ITEM = ("From Coq Require Import QArith.\nFrom C12 Require Import Base Model.\nOpen Scope Z_scope.\n"
+            "Definition M : machine := " + cmachine() + ".\n"
+            "Definition run := item_run.\nDefinition out_eqb := item_out_eqb.\n")
+
+
+# ==================================================================================================
+# suite 3: sections (validate_config): synthetic specs with base specs, and sections of the real spec
+KEYS = ["a", "b", "c", "dd", "name", "_priv", "__valid_in__", "x_y", "A"]
+
+
+def gen_synth_spec(rng):
+    spec = []
+    used = set()
+    for _ in range(rng.randrange(0, 6)):
+        k = rng.choice(KEYS)
+        if k in used:
+            continue
+        used.add(k)
+        r = rng.random()
+        if k.startswith("__"):
+            spec.append([k, ["raw"]])
+        elif r < 0.08:
+            spec.append([k, ["ignore"]])
+        elif r < 0.12:
+            spec.append([k, ["nested"]])
+        else:
+            ent = gen_spec_entry(rng)
+            if rng.random() < 0.7:
+                ent[0] = "single"
+                ent[1] = rng.choice(SCALAR_VALIDATORS)
+                ent[2] = rng.choice(["", "None", "0", "1", "a", "false", "s1", "1s"])
+            spec.append([k, ["item"] + ent])
+    if rng.random() < 0.08:
+        spec.append(["__allow_others__", ["raw"]])
+    return spec
+
+
+def merged_spec_py(specs):
+    this = {}
+    for elem in specs:
+        base = dict((k, e) for k, e in elem)
+        base.update(this)
+        this = base
+    return this
+
+
+def gen_source_for(rng, merged):
+    """mostly-valid config for a merged spec {key: entry}, then at most one perturbation"""
+    src = {}
+    for k, e in merged.items():
+        if e[0] != "item":
+            if rng.random() < 0.15:
+                src[k] = rvalue(rng)
+            continue
+        if rng.random() < 0.55 or (e[3] == "" and rng.random() < 0.8):
+            src[k] = item_for(rng, e[1], e[2])
+    r = rng.random()
+    if r < 0.25:
+        src[rng.choice(["zz", "unknown", "_hidden", "A ", "", "aa", "b b"])] = rvalue(rng)
+    elif r < 0.30:
+        src[rng.choice([5, None, True, 1.5])] = rvalue(rng)
+    elif r < 0.40 and merged:
+        k = rng.choice(list(merged))
+        src[k] = rvalue(rng)
+    elif r < 0.46 and src:
+        del src[rng.choice(list(src))]
+    if rng.random() < 0.06:
+        return rng.choice([None, "abc", "_", "", "a", 5, True, ["a"], [{"a": 1}], [5], list(src), 1.5])
+    if rng.random() < 0.3:
+        items = list(src.items())
+        rng.shuffle(items)
+        src = dict(items)
+    return src
+
+
+def gen_section(rng, tier, i):
+    if rng.random() < 0.45:
+        rs = real_spec()
+        sec = rng.choice(rs["sections"])
+        body = rs["spec"][sec]
+        base = ["device"] if body.get("__type__") == "device" else []
+        merged = merged_spec_py([enc_spec(body)] + [enc_spec(rs["spec"][b]) for b in base])
+        return {"real": sec, "base": base, "source": tagv(gen_source_for(rng, merged)),
+                "add_missing": rng.random() < 0.9, "allow_invalid": rng.random() < 0.05}
+    specs = [gen_synth_spec(rng) for _ in range(rng.choice([1, 1, 1, 2, 2, 3]))]
+    merged = merged_spec_py(specs)
+    return {"specs": specs, "source": tagv(gen_source_for(rng, merged)),
+            "add_missing": rng.random() < 0.85, "allow_invalid": rng.random() < 0.08}
+
+
+def run_section(case):
+    rig_init()
+    from mpf.core.config_validator import ConfigValidator
+    machine = _RIG["rig"].machine
+    if "real" in case:
+        cv = _RIG["cv"]
+        names = [case["real"]] + list(case["base"])
+        base_arg = None if not case["base"] else case["base"][0] if len(case["base"]) == 1 else tuple(case["base"])
+        spec_seen = [enc_spec(cv.config_spec[n]) for n in names]
+    else:
+        names = ["sec%d" % j for j in range(len(case["specs"]))]
+        store = {n: dec_spec(s) for n, s in zip(names, case["specs"])}
+        cv = ConfigValidator(machine, store)
+        base_arg = None if len(names) == 1 else names[1] if len(names) == 2 else tuple(names[1:])
+        spec_seen = None
+    before = spec_fingerprint(cv.config_spec)
+    source = untag(case["source"])
+    keys_before = list(source.keys()) if isinstance(source, dict) else None
+    old = machine.config["mpf"]["allow_invalid_config_sections"]
+    machine.config["mpf"]["allow_invalid_config_sections"] = bool(case["allow_invalid"])
+    try:
+        out = _outcome(lambda: cv.validate_config(names[0], source, "name", base_arg, case["add_missing"]))
+    finally:
+        machine.config["mpf"]["allow_invalid_config_sections"] = old
+    out["spec_changed"] = spec_fingerprint(cv.config_spec) != before
+    # the cached merged spec must still equal a fresh merge
+    try:
+        cached = cv.build_spec(names[0], base_arg)
+        fresh = ConfigValidator.build_spec.__wrapped__(cv, names[0], base_arg)
+        out["cache_stale"] = spec_fingerprint(cached) != spec_fingerprint(fresh)
+        out["merged"] = enc_spec(fresh)
+    except Exception as e:    # noqa
+        out["merged"] = None
+    if spec_seen is not None:
+        out["spec_seen"] = spec_seen
+    if "real" in case and out["spec_changed"] is False:
+        out["spec_changed"] = spec_fingerprint(cv.config_spec) != _RIG["spec0"]
+    return out
+
+
+def cspec(enc):
+    def ce(e):
+        if e[0] == "ignore":
+            return "SIgnore"
+        if e[0] == "item":
+            return "(SItem %s %s %s)" % (cstr(e[1]), cstr(e[2]), cstr(e[3]))
+        if e[0] == "nested":
+            return "SNested"
+        return "SRaw"
+    return coqlist("(%s, %s)" % (cstr(k), ce(e)) for k, e in enc)
+
+
+def coq_section(case, out):
+    try:
+        specs = out.get("spec_seen") if "real" in case else case["specs"]
+        if specs is None:
+            return None
+        merged = merged_spec_py(specs)
+        src = case["source"]
+        for k, e in merged.items():
+            if not ascii_ok(k) or k == "":
+                return None
+            if e[0] == "item":
+                if k.startswith("_"):
+                    continue
+                if not entry_modelled(e[1], e[2]) or not ascii_ok(e[3]) or "{" in e[3] or not numeric_text_in_domain(e[3]):
+                    return None
+        if src[0] == "d":
+            for kt, vt in src[1]:
+                if kt[0] == "s" and kt[1] in merged and merged[kt[1]][0] == "item":
+                    e = merged[kt[1]]
+                    if not item_in_domain(e[1], e[2], vt):
+                        return None
+                elif kt[0] == "s" and kt[1] in merged and merged[kt[1]][0] == "nested":
+                    return None
+        o = out
+        if "err" in out and any(e[0] == "item" and e[1] == "set" for e in merged.values()):
+            return None
+        return "((M, %s, %s, %s, %s), %s)" % (blit(case["allow_invalid"]), blit(case["add_missing"]),
+                                               coqlist(cspec(s) for s in specs), cyv(src), cres(o, cyv, "yv"))
+    except OutOfDomain:
+        return None
+
+
+def oracle_section(case, out):
+    fails = []
+    if out.get("spec_changed"):
+        fails.append({"sig": "spec-modified", "what": "config_spec differs after validate_config"})
+    if out.get("cache_stale"):
+        fails.append({"sig": "spec-modified", "what": "the cached merged spec differs from a fresh merge"})
+    merged = out.get("merged")
+    if "ok" not in out or merged is None:
+        return fails
+    res = out["ok"]
+    if res[0] != "d":
+        fails.append({"sig": "section-not-dict", "what": "validate_config returned a %s" % res[0]})
+        return fails
+    mk = {k: e for k, e in merged}
+    rd = {}
+    for kt, vt in res[1]:
+        rd[json.dumps(kt)] = vt
+    src = case["source"]
+    # every provided key is still there
+    if src[0] == "d":
+        for kt, _ in src[1]:
+            if json.dumps(kt) not in rd:
+                fails.append({"sig": "provided-key-dropped", "what": "key %r of the source is not in the result" % (kt,)})
+        # unknown keys are rejected
+        if "__allow_others__" not in mk and not case["allow_invalid"]:
+            for kt, _ in src[1]:
+                if kt[0] == "s" and kt[1] not in mk and not kt[1].startswith("_"):
+                    fails.append({"sig": "unknown-key-accepted",
+                                  "what": "key %r is not in the spec but the config was accepted" % kt[1]})
+    for k, e in mk.items():
+        if e[0] == "ignore" or k.startswith("_"):
+            continue
+        vt = rd.get(json.dumps(["s", k]))
+        if vt is None:
+            if case["add_missing"]:
+                fails.append({"sig": "spec-key-missing", "what": "spec key %r missing from the validated config" % k})
+            continue
+        if e[0] == "item" and py_has_item_type(e[1], e[2], vt) is False:
+            fails.append({"sig": "ill-typed",
+                          "what": "key %r (%s) validated to %r, which is not a value of the declared type" % (k, "|".join(e[1:]), vt)})
+        if e[0] == "nested" and vt[0] != "l":
+            fails.append({"sig": "ill-typed", "what": "key %r (list of sub-configs) validated to %r" % (k, vt)})
+    return fails
+
+
+def shrink_section(case):
+    src = case["source"]
+    for y in shrink_value(src):
+        yield dict(case, source=y)
+    if "specs" in case:
+        for j, sp in enumerate(case["specs"]):
+            for q in range(len(sp)):
+                yield dict(case, specs=case["specs"][:j] + [sp[:q] + sp[q + 1:]] + case["specs"][j + 1:])
+        if len(case["specs"]) > 1:
+            yield dict(case, specs=case["specs"][:-1])
+
+
+def nontrivial_section(case, out):
+    return case["source"][0] == "d" and len(case["source"][1]) > 0
+
+
+def describe_section(case):
+    return ("real" if "real" in case else "synthetic") + (" base" if case.get("base") or len(case.get("specs", [])) > 1 else "")
+
+
+HDR_SECTION = ("From Coq Require Import QArith.\nFrom C12 Require Import Base Model.\nOpen Scope Z_scope.\n"
+               "Definition M : machine := " + cmachine() + ".\n"
+               "Definition run := section_run.\nDefinition out_eqb := section_out_eqb.\n")
+
+SUITES = [
+    Suite("time", gen_time, run_time, HDR_TIME, coq_time, oracle_time, shrink_time, nontrivial_time,
+          {"quick": 3000, "thorough": 100000}, describe=describe_time, shard=500),
+    Suite("item", gen_item, run_item, HDR_ITEM, coq_item, oracle_item, shrink_item, nontrivial_item,
+          {"quick": 4000, "thorough": 120000}, worker_init=rig_init, describe=describe_item, shard=500),
+    Suite("section", gen_section, run_section, HDR_SECTION, coq_section, oracle_section, shrink_section,
+          nontrivial_section, {"quick": 2000, "thorough": 60000}, worker_init=rig_init, describe=describe_section,
+          shard=300),
+]
